@@ -216,3 +216,20 @@ def node_self_args(node):
     if node.get("k") == "call" and isinstance(node.get("f"), dict):
         return node["f"].get("res", {}).get("args", [])
     return []
+
+
+def opt_polarity(c):
+    """For a ('match', term, pattern-text, index-or-bool, pattern-node, ..) condition on an Option/Result:
+    True = the Some/Ok side, False = the None/Err side (or the negated Some pattern), None = cannot tell."""
+    if c[0] != "match":
+        return None
+    txt = c[2]
+    neg = txt.startswith("!") or c[3] is False
+    body = txt.lstrip("!")
+    someish = ("Some(" in body or "Some{" in body or body.endswith("Some") or "::Ok(" in body or "Ok{" in body)
+    noneish = (body.endswith("None") or body.endswith("None{}") or "::Err(" in body or body.strip() == "_")
+    if someish:
+        return not neg
+    if noneish:
+        return neg if not body.strip() == "_" else False
+    return None
